@@ -713,6 +713,11 @@ var forcedPath *wire.Path
 func genRelayCase(w *wire.World, g *sip.Gen, i int, prop string) *relayCase {
 	c := &relayCase{id: fmt.Sprintf("m%d", i)}
 	sidx := g.R.Intn(len(w.Svcs))
+	if prop == "C06" && g.R.Intn(2) == 0 {
+		// half of the history goes through two services, so that their learned-route
+		// tables see thousands of distinct hosts in one run
+		sidx = g.R.Intn(2)
+	}
 	if forcedPath != nil {
 		sidx = forcedPath.Svc
 		c.id = fmt.Sprintf("q%d", i) // burst cases have their own id space
